@@ -252,6 +252,11 @@ def gfOracle (G : Gf2k.Params) (op : String) (args : List String) (impl : String
       let a ← a.toNat?
       let b ← b.toNat?
       ok (impl == (if a < b then "0" else if a == b then "1" else "2")) "ordering differs from the integer ordering"
+  | "fromslice", [h] => do
+      let bs ← parseHexBytes h
+      let v := ofLeBytes bs
+      if impl == "err" then ok (bs.length * 8 > G.bits || v ≥ 2 ^ G.bits || bs.length > G.bits / 8) "a slice that fits the element was rejected"
+      else ok (impl == s!"ok {v}" && v < 2 ^ G.bits) "TryFrom<&[u8]> produced a non-canonical element (bits beyond BITS set) or a wrong value"
   | _, _ => none
 
 /-! Spec side for Boolean arrays: an array is the vector of its `BITS` bits (a number below `2^BITS`);
@@ -336,6 +341,13 @@ def oracle (toks : List String) (impl : String) : Option String :=
   | "c08.pf" :: f :: op :: args =>
       match fieldByName f with
       | some P =>
+        let mayPanic := match op, args with
+          | "inv", [a] => a.toNat? == some 0
+          | "batchinv", [l] => ((parseNatList l).getD []).any (· % P.p == 0) || l == "-"
+          | _, _ => false
+        if impl.startsWith "panic" && !mayPanic then
+          some "fails the operation panicked on canonical operands (overflow of the operation store / failed unwrap)"
+        else
         match pfOracle P op args impl with
         | some true => some "holds"
         | some false => some "fails result differs from arithmetic modulo PRIME (or is not the canonical representative)"
